@@ -7,7 +7,7 @@ import types
 import typing as t
 import uuid
 
-from .. import taps  # noqa: F401
+from .. import taps
 from .. import blobref, refdc, sdref
 from ..core import Ctx, MachineryError
 from ..tlc import require_actions, require_ok, run_tlc
@@ -105,11 +105,12 @@ def low_level(sign: bool, mangles: list[t.Optional[t.Callable[[bytes, list[bytes
     outs = []
     for i in range(len(mangles)):
         try:
-            resp = client.request(0, 0, _get_key_stub(3, 4 + i), verification_trailer=vt)
+            with taps.time_limit(20):
+                resp = client.request(0, 0, _get_key_stub(3, 4 + i), verification_trailer=vt)
             outs.append("authentic" if resp.stub_data == conn.last_plain_body else "different")
         except MachineryError:
             raise
-        except Exception:  # noqa
+        except (Exception, taps.Hang):  # noqa
             outs.append("error")
             break
     return outs
@@ -159,7 +160,7 @@ def api_level(op: str, sign: bool, action: str, flavour: str) -> tuple[str, str]
     net.on_connection = on_conn
     kw = dict(server="dc01", username=USER, password=refdc.PASSWORD, auth_protocol="ntlm")
     try:
-        with net:
+        with net, taps.time_limit(30):
             if op == "unprotect":
                 pt = dpapi_ng.ncrypt_unprotect_secret(blob_in, **kw) if flavour == "sync" else asyncio.run(dpapi_ng.async_ncrypt_unprotect_secret(blob_in, **kw))
                 return ("authentic" if pt == b"sealed-payload" else "different"), ""
@@ -167,7 +168,7 @@ def api_level(op: str, sign: bool, action: str, flavour: str) -> tuple[str, str]
                    else asyncio.run(dpapi_ng.async_ncrypt_protect_secret(b"to-protect", SID, **kw)))
     except MachineryError:
         raise
-    except Exception as e:  # noqa
+    except (Exception, taps.Hang) as e:  # noqa
         return "error", type(e).__name__
     # whose key opens the new blob?
     for who, d in (("authentic", dc), ("different", evil)):
